@@ -3,12 +3,19 @@ package interp
 import (
 	"fmt"
 	"go/types"
+	"sort"
 	"strings"
 
 	"golang.org/x/tools/go/ssa"
 
 	"gosmt/term"
 )
+
+type obsTerm struct {
+	pos   int
+	label string
+	t     *term.Term
+}
 
 const verifrtSuffix = "/lib/verifrt."
 
@@ -118,7 +125,15 @@ func init() {
 		return nil
 	})
 	vr("Observe", func(it *Interp, fn *ssa.Function, args []Value, site ssa.Instruction) Value {
-		it.observe = append(it.observe, fmt.Sprintf("%s=%s", it.constStr(args[0], "label"), it.render(args[1], 0)))
+		label := it.constStr(args[0], "label")
+		if iv, ok := args[1].(Iface); ok {
+			if t, isT := iv.v.(*term.Term); isT {
+				it.observeTerms = append(it.observeTerms, obsTerm{len(it.observe), label, t})
+				it.observe = append(it.observe, label+"=<sym>")
+				return nil
+			}
+		}
+		it.observe = append(it.observe, fmt.Sprintf("%s=%s", label, it.render(args[1], 0)))
 		return nil
 	})
 	vr("DeepEqual", func(it *Interp, fn *ssa.Function, args []Value, site ssa.Instruction) Value {
@@ -396,13 +411,17 @@ func (it *Interp) deepEq(t types.Type, a, b Value, seen map[[2]interface{}]bool,
 
 // ---------- Havoc ----------
 
-// havoc fills every numeric/bool leaf reachable from v (of type t) with fresh inputs. top: v is
-// the pointer passed by the harness.
+// havoc fills every numeric/bool leaf reachable from v (of type t) with fresh inputs named by their
+// access path. Strings, funcs, channels are left alone; maps are descended (string keys, in sorted key
+// order) when their values are pointers; *time.Location is not followed.
 func (it *Interp) havoc(name string, t types.Type, v Value, seen map[interface{}]bool, top bool) {
 	switch u := t.Underlying().(type) {
 	case *types.Pointer:
 		p, ok := v.(*Value)
 		if !ok || p == nil {
+			return
+		}
+		if n, isNamed := u.Elem().(*types.Named); isNamed && n.Obj().Pkg() != nil && n.Obj().Pkg().Path() == "time" {
 			return
 		}
 		if seen[p] {
@@ -436,34 +455,34 @@ func (it *Interp) havocVal(name string, t types.Type, v Value, seen map[interfac
 		}
 		st := v.(Struct)
 		for i := 0; i < u.NumFields(); i++ {
-			st[i] = it.havocVal(name, u.Field(i).Type(), st[i], seen)
+			st[i] = it.havocVal(name+"."+u.Field(i).Name(), u.Field(i).Type(), st[i], seen)
 		}
 		return st
 	case *types.Array:
 		if na, ok := v.(NumArray); ok {
 			esz := sizeof(u.Elem())
 			for i := 0; i < int(u.Len()); i++ {
-				x := it.havocVal(name, u.Elem(), it.loadNum(na.buf, i*esz, u.Elem()), seen)
+				x := it.havocVal(fmt.Sprintf("%s[%d]", name, i), u.Elem(), it.loadNum(na.buf, i*esz, u.Elem()), seen)
 				it.storeNum(na.buf, i*esz, u.Elem(), x)
 			}
 			return na
 		}
 		arr := v.(Array)
 		for i := range arr {
-			arr[i] = it.havocVal(name, u.Elem(), arr[i], seen)
+			arr[i] = it.havocVal(fmt.Sprintf("%s[%d]", name, i), u.Elem(), arr[i], seen)
 		}
 		return arr
 	case *types.Slice:
 		if ns, ok := v.(NumSlice); ok {
 			for i := 0; i < ns.len; i++ {
-				x := it.havocVal(name, u.Elem(), it.loadNum(ns.buf, ns.off+i*ns.esz, u.Elem()), seen)
+				x := it.havocVal(fmt.Sprintf("%s[%d]", name, i), u.Elem(), it.loadNum(ns.buf, ns.off+i*ns.esz, u.Elem()), seen)
 				it.storeNum(ns.buf, ns.off+i*ns.esz, u.Elem(), x)
 			}
 			return ns
 		}
 		s, _ := v.([]Value)
 		for i := range s {
-			s[i] = it.havocVal(name, u.Elem(), s[i], seen)
+			s[i] = it.havocVal(fmt.Sprintf("%s[%d]", name, i), u.Elem(), s[i], seen)
 		}
 		return v
 	case *types.Pointer:
@@ -475,6 +494,32 @@ func (it *Interp) havocVal(name string, t types.Type, v Value, seen map[interfac
 			if _, isPtr := iv.t.Underlying().(*types.Pointer); isPtr {
 				it.havoc(name, iv.t, iv.v, seen, false)
 			}
+		}
+		return v
+	case *types.Map:
+		m, _ := v.(*MapObj)
+		if m == nil {
+			return v
+		}
+		if _, isPtr := u.Elem().Underlying().(*types.Pointer); !isPtr {
+			return v
+		}
+		if k, _ := basicInfo(u.Key()); k != kString {
+			return v
+		}
+		type kv struct {
+			k string
+			i int
+		}
+		var ks []kv
+		for _, i := range m.liveIdx() {
+			if s, ok := m.keys[i].(string); ok {
+				ks = append(ks, kv{s, i})
+			}
+		}
+		sort.Slice(ks, func(a, b int) bool { return ks[a].k < ks[b].k })
+		for _, e := range ks {
+			it.havoc(fmt.Sprintf("%s[%s]", name, e.k), u.Elem(), m.vals[e.i], seen, false)
 		}
 		return v
 	}
